@@ -896,7 +896,8 @@ def strict(source: str) -> richreports.report:
     analyze it (against the "strict" Nada DSL subset), and generate an
     interactive HTML report detailing the results.
     """
-    source = source.strip()
+    # Python reads "\r\n" and a bare "\r" as line breaks; the report is built line by line.
+    source = source.strip().replace("\r\n", "\n").replace("\r", "\n")
     (atok, skips) = parse(source)
     root = atok.tree
 
